@@ -168,3 +168,31 @@ def hash_env(salt=0, **extra):
     env = dict(os.environ, PYTHONHASHSEED=str(1 + (seed * 7919 + salt * 104729) % 4294967290))
     env.update(extra)
     return env
+
+
+def interrupted_call(fn, at, suffixes=("permuta/",)):
+    """Run fn(); a KeyboardInterrupt is raised at the at-th line executed in a source file whose path contains one of
+    `suffixes` (library code, where its tables are changed).  Returns ("done", value) when fn finished first,
+    ("interrupted", where) otherwise.  The caller goes on with the same objects: later answers must not depend on
+    an earlier request having been abandoned."""
+    import sys
+    seen = [0]
+
+    def local(frame, event, arg):
+        if event == "line":
+            seen[0] += 1
+            if seen[0] == at:
+                raise KeyboardInterrupt("%s:%d" % (frame.f_code.co_name, frame.f_lineno))
+        return local
+
+    def tracer(frame, event, arg):
+        name = frame.f_code.co_filename.replace("\\", "/")
+        return local if any(x in name for x in suffixes) else None
+    old = sys.gettrace()
+    sys.settrace(tracer)
+    try:
+        return "done", fn()
+    except KeyboardInterrupt as e:
+        return "interrupted", str(e)
+    finally:
+        sys.settrace(old)
